@@ -1715,9 +1715,30 @@ func genC04(ctx *hx.Ctx, emit func(hx.Case)) {
 				list = append(list, c04Ctors[j])
 			}
 			for _, od := range c04OptionDocs(base, &uniq) {
-				if !ctx.Thorough() && len(list) == 2 && (i+j+len(od.name))%2 == 1 && list[0][0] != list[1][0] &&
-					!strings.Contains(list[0][0]+list[1][0], "able") {
-					continue // quick tier: half of the pairs that involve no Enable/Disable constructor
+				if !ctx.Thorough() && len(list) == 2 {
+					// quick tier: pairs only on the documents whose rule one of the two constructors can govern
+					names := list[0][0] + " " + list[1][0]
+					sib := strings.Contains(names, "AllowExtraSiblingFields")
+					switch od.name {
+					case "conforming":
+						continue
+					case "ref-description-sibling", "extra-field-bogus":
+						if !sib {
+							continue
+						}
+					case "ref-x-sibling":
+						if !sib && !strings.Contains(names, "WithRef") {
+							continue
+						}
+					case "example-mismatch":
+						if !strings.Contains(names, "ExamplesValidation") && (i+j)%2 == 1 {
+							continue
+						}
+					case "format-unknown":
+						if !strings.Contains(names, "FormatValidation") && (i+j)%2 == 0 {
+							continue
+						}
+					}
 				}
 				emit(c04CaseL(od.doc, nil, list, "optlist:"+od.name))
 			}
@@ -1879,13 +1900,9 @@ func shrinkC04(c hx.Case) []hx.Case {
 			out = append(out, x)
 		}
 	}
-	if l := jlist(c["before"]); len(l) > 0 {
-		for i := range l {
-			x := cloneCase(c)
-			x["before"] = append(append([]any{}, l[:i]...), l[i+1:]...)
-			out = append(out, x)
-		}
-	}
+	// (the earlier calls of a sequence are never dropped while shrinking: candidates are evaluated in this process, in
+	// which the earlier calls of the original case have already happened — a variant without them could fail here and
+	// pass when replayed in a fresh process)
 	if len(jlist(c["detach"])) > 0 {
 		x := cloneCase(c)
 		x["detach"] = []any{}
